@@ -93,7 +93,7 @@ BOUNDS = {
              "iterate: schedules [2,3],[2,4],[3,2],[2,3,4] on listed masks with 1-2 unmasked pixels (sampler and decorator routes), fractional accuracy symbolic in (0,1], "
              "absolute tolerance unset or symbolic >= 0",
     "thorough": "as quick with every mask of shapes H,W <= 4, H*W <= 12 (kernels) / H,W <= 3 (classes, decorator), uniform sub-size 4 and maps mixing {1,2,4}, "
-                "iterate schedules additionally [2,4,8],[2,3,4] (2 pixels),[4,2,3],[2],[1,2] and masks with 3 unmasked pixels",
+                "iterate schedules additionally [2,4,8],[2,3,4] (2 pixels),[4,2,3],[3,4],[2],[1,2] (masks with 1-2 unmasked pixels)",
 }
 OUTSIDE = [
     "shapes / masks beyond the listed bounds, sub-sizes above 4 (8 only inside the thorough iterate schedule)",
@@ -117,9 +117,9 @@ BUDGET_S = {"quick": 600, "thorough": 2300}
 
 
 def POST_INSTALL():
+    import sys
     import autoarray.dataset.grids  # noqa  (hashed in FUNCTIONS)
-    from symx import merge
-    merge.install_dispatchers()
+    sys.set_int_max_str_digits(0)    # solver models may contain very long numerals
 
 
 def _known_ids():
@@ -452,6 +452,10 @@ def body_decorator(inp, H, W, pattern, route):
     for i, p in enumerate(pos):
         en[p] = exp[i]
     E["decorated.native"] = en
+    # second call on the same grid object (cached over-sampler / cached sub-grid are reused)
+    r2 = hx.attempt(lambda: prof.image_2d_from(g))
+    A["decorated_again.slim"] = hx.attempt(lambda: r2.slim.array) if not isinstance(r2, hx.Raised) else r2
+    E["decorated_again.slim"] = E["decorated.slim"]
     return A, E
 
 
@@ -526,7 +530,6 @@ def body_iterate(inp, H, W, steps, rel_set, route):
 
 
 MARGIN = 1e-4
-MERGE_ITERATE = [os.environ.get("C09_MERGE", "1") == "1"]
 
 
 def _absge(t, d):
@@ -596,15 +599,7 @@ def case_iterate(ctx, mask_name, steps, geom, rel_set, route="sampler"):
     inputs = {"mask": mask, "origin": origin, "scales": scales, "thr": [thr], "rel": [rel], "ftab": []}
     kw = {"H": H, "W": W, "steps": list(steps), "rel_set": rel_set, "route": route}
     ctx.set_inputs(**inputs)
-    if MERGE_ITERATE[0]:
-        # the jit kernels (threshold test, sub-grid, binning) run through the if-converting interpreter: one path per
-        # resolved/unresolved pattern of the pixels instead of one per outcome of every comparison
-        from symx import merge
-        with merge.merging() as events:
-            actual, expected = body_iterate(inputs, **kw)
-            ctx.check("no exception event in the merged kernels", [z3.Not(g) for (g, n, msg) in events])
-    else:
-        actual, expected = body_iterate(inputs, **kw)
+    actual, expected = body_iterate(inputs, **kw)
     pos = ref_pixels(mask)
     F = UserF(inputs["ftab"])
     region = None
@@ -646,7 +641,7 @@ def cases(tier):
                 else:
                     pats = ["u2", "u3", "mA", "mC"] if H * W >= 12 else ["u1", "u2", "u3", "u4", "mA", "mB", "mC"]
                 for i, p in enumerate(pats):
-                    split = {"split": 2} if H * W >= 12 else None
+                    split = {"split": 3} if H * W >= 12 else ({"split": 2} if H * W >= 9 else None)
                     out.append(("case_kernels", {"H": H, "W": W, "pattern": p, "geom": GEOM_CYCLE[(i + H + W) % 4]}, split))
     out.append(("case_kernels", {"H": 2, "W": 2, "pattern": "mA", "geom": "both"}))
     out.append(("case_kernels", {"H": 2, "W": 3, "pattern": "u3", "geom": "both"}))
@@ -676,13 +671,12 @@ def cases(tier):
           ("one23", [2, 3, 4], "g0", False, "sampler"), ("one33", [3, 2], "sym", True, "decorator")]
     if not quick:
         it += [("one33", [2, 4, 8], "g1", False, "sampler"), ("two13", [2, 3, 4], "g2", False, "sampler"),
-               ("one23", [4, 2, 3], "sym", True, "decorator"), ("three33", [2, 3], "g0", False, "sampler"),
-               ("two23", [2, 4], "g1", True, "decorator"), ("row14", [2, 4], "sym", False, "sampler"),
-               ("one33", [2], "g0", False, "sampler"), ("two13", [1, 2], "g2", True, "sampler")]
+               ("one23", [4, 2, 3], "sym", True, "decorator"), ("two23", [2, 4], "g1", True, "decorator"),
+               ("one33", [2], "g0", False, "sampler"), ("two13", [1, 2], "g2", True, "sampler"), ("two23", [3, 4], "g0", False, "sampler")]
     for (mn, steps, geom, rel_set, route) in it:
-        heavy = len(ref_pixels(listed_mask(mn))) * (len(steps) - 1) >= 3
+        load = len(ref_pixels(listed_mask(mn))) * (len(steps) - 1)
         out.append(("case_iterate", {"mask_name": mn, "steps": steps, "geom": geom, "rel_set": rel_set, "route": route},
-                    {"timeout_ms": 60000, "split": 3 if heavy else 0}))
+                    {"timeout_ms": 60000, "split": min(4, load + 1) if load >= 2 else 0}))
 
     def weight(c):
         kw = c[1]
